@@ -223,6 +223,8 @@ pub fn run_check(spec: &CheckSpec, tier: Tier) -> i32 {
         std::thread::scope(|s| {
             for _ in 0..jobs() {
                 s.spawn(|| loop {
+                    // no run of this worker is in flight (the supervisor's watchdog reads the age of the slot files)
+                    clear_progress();
                     let idx = next.fetch_add(1, Ordering::SeqCst);
                     if idx >= n || idx > stop_at.load(Ordering::SeqCst) {
                         break;
@@ -480,6 +482,41 @@ fn mark_progress(scenario: &str, run_seed: u64, input: &Value) {
     });
 }
 
+fn clear_progress() {
+    PROGRESS_FILE.with(|p| {
+        if let Some(f) = p.borrow().as_ref() {
+            let _ = std::fs::remove_file(f);
+        }
+    });
+}
+
+/// Seconds one run may take on the wall clock before the supervisor calls it stuck (a loop without any scheduling
+/// point never returns to the scheduler, so the step budget cannot end it).  Generous on purpose; 0 disables.
+fn stuck_after_s(tier: Tier) -> u64 {
+    // a quick-tier run takes milliseconds to a few seconds, the largest thorough-tier run (C11's 5 000-fixture document) well under a minute
+    std::env::var("PLSIM_STUCK_S").ok().and_then(|s| s.parse().ok()).unwrap_or(match tier {
+        Tier::Quick => 300,
+        Tier::Thorough => 1800,
+    })
+}
+
+/// Wait for a child; with a limit, kill it when `stuck()` says so.  Returns (exit code if any, was killed as stuck).
+fn wait_watched(child: &mut std::process::Child, mut stuck: impl FnMut() -> bool) -> (Option<i32>, bool) {
+    loop {
+        match child.try_wait() {
+            Ok(Some(st)) => return (st.code(), false),
+            Ok(None) => {}
+            Err(_) => return (None, false),
+        }
+        if stuck() {
+            let _ = child.kill();
+            let _ = child.wait();
+            return (None, true);
+        }
+        std::thread::sleep(std::time::Duration::from_millis(500));
+    }
+}
+
 /// Supervisor: run the batch in a child process; when the child is killed by a signal (stack
 /// overflow, abort) find the in-flight run that reproduces the abort and report it as a violation.
 pub fn supervise(prop: &str, tier: Tier) -> i32 {
@@ -487,15 +524,26 @@ pub fn supervise(prop: &str, tier: Tier) -> i32 {
     let _ = std::fs::remove_dir_all(&dir);
     let _ = std::fs::create_dir_all(&dir);
     let exe = std::env::current_exe().expect("current exe");
-    let status = std::process::Command::new(&exe).args(["check-inner", prop, "--tier", tier.as_str()]).env("PLSIM_PROGRESS_DIR", &dir).status();
-    let code = match status {
-        Ok(s) => s.code(),
+    let limit = stuck_after_s(tier);
+    let mut child = match std::process::Command::new(&exe).args(["check-inner", prop, "--tier", tier.as_str()]).env("PLSIM_PROGRESS_DIR", &dir).spawn() {
+        Ok(c) => c,
         Err(e) => {
             eprintln!("HARNESS-ERROR: cannot start the batch process: {}", e);
             let _ = std::fs::remove_dir_all(&dir);
             return 2;
         }
     };
+    let dir2 = dir.clone();
+    let (code, stuck) = wait_watched(&mut child, || {
+        if limit == 0 {
+            return false;
+        }
+        let Ok(rd) = std::fs::read_dir(&dir2) else { return false };
+        rd.flatten().any(|e| e.metadata().ok().and_then(|m| m.modified().ok()).and_then(|t| t.elapsed().ok()).map(|d| d.as_secs() > limit).unwrap_or(false))
+    });
+    if stuck {
+        println!("plsim: a run has been executing for more than {} s of wall-clock time without finishing; the batch was stopped", limit);
+    }
     if let Some(c) = code {
         if c == 0 || c == 1 || c == 2 {
             let _ = std::fs::remove_dir_all(&dir);
@@ -520,13 +568,21 @@ pub fn supervise(prop: &str, tier: Tier) -> i32 {
         }
     }
     cands.sort();
+    if stuck {
+        // the run that has been in flight longest first
+        cands.sort_by_key(|(_, p)| std::fs::metadata(p).ok().and_then(|m| m.modified().ok()));
+    }
     let mut exit = 2;
     for (run_seed, path) in &cands {
-        let st = std::process::Command::new(&exe).args(["exec-one", prop, path.to_str().unwrap()]).stdout(std::process::Stdio::null()).stderr(std::process::Stdio::null()).status();
-        let died = match st {
-            Ok(s) => !matches!(s.code(), Some(0) | Some(1) | Some(2) | Some(101)),
-            Err(_) => false,
+        let t1 = std::time::Instant::now();
+        let (st, hung): (Option<Option<i32>>, bool) = match std::process::Command::new(&exe).args(["exec-one", prop, path.to_str().unwrap()]).stdout(std::process::Stdio::null()).stderr(std::process::Stdio::null()).spawn() {
+            Ok(mut c) => {
+                let (code, hung) = wait_watched(&mut c, || limit > 0 && t1.elapsed().as_secs() > limit);
+                (Some(code), hung)
+            }
+            Err(_) => (None, false),
         };
+        let died = hung || matches!(st, Some(c) if !matches!(c, Some(0) | Some(1) | Some(2) | Some(101)));
         if died {
             let doc: Value = serde_json::from_str(&std::fs::read_to_string(path).unwrap_or_default()).unwrap_or(Value::Null);
             let rdir = verif_dir().join("replays");
@@ -534,12 +590,16 @@ pub fn supervise(prop: &str, tier: Tier) -> i32 {
             let rp = rdir.join(format!("{}-{:016x}.json", prop, run_seed));
             let out = json!({
                 "schema": 1, "property": prop, "scenario": doc["scenario"], "run_seed": run_seed,
-                "class": "process-abort",
-                "detail": format!("executing this run kills the process (status {:?}): unbounded recursion / stack overflow or abort in the code under test", st.ok().and_then(|s| s.code())),
+                "class": if hung { "no-termination-wall-clock" } else { "process-abort" },
+                "detail": if hung { format!("executing this run alone does not finish within {} s of wall-clock time and never returns to the scheduler: an unbounded loop without a scheduling point in the code under test (replaying this file does not return either - run it under `timeout`)", limit) } else { format!("executing this run kills the process (status {:?}): unbounded recursion / stack overflow or abort in the code under test", st.flatten()) },
                 "input": doc["input"],
             });
             let _ = std::fs::write(&rp, serde_json::to_string_pretty(&out).unwrap());
-            println!("plsim: run_seed {} of scenario {} aborts the process (stack overflow / abort): no operation of the code under test may do that", run_seed, doc["scenario"]);
+            if hung {
+                println!("plsim: run_seed {} of scenario {} never finishes (no scheduler step, no return within {} s): every operation has to terminate", run_seed, doc["scenario"], limit);
+            } else {
+                println!("plsim: run_seed {} of scenario {} aborts the process (stack overflow / abort): no operation of the code under test may do that", run_seed, doc["scenario"]);
+            }
             println!("VIOLATION property={} replay={}", prop, rp.display());
             let ev = json!({
                 "property_id": prop, "tier": tier.as_str(), "seed": master_seed(), "level": "exploration",
